@@ -22,7 +22,7 @@ func init() {
 	simkit.Register(&simkit.Prop{
 		ID:   "C04",
 		Desc: "CacheDB -> OverlayDB -> LevelDB reads, prefix iterators, commit and reset refine a sorted-map model",
-		Rule: "a run = 1..300 tape-chosen operations on three real layers (CacheDB memdb over OverlayDB memdb over a real LevelDB, on SimDisk in about half of the runs): cache put/delete/put-empty/get/prefix-iterate, Commit, Reset, direct overlay put/delete, overlay Reset, overlay CommitTo + LevelDB batch commit (with or without clearing the overlay), fresh overlay+cache (next block), clean LevelDB restart; up to 32 keys sharing prefixes (empty key, 0x00/0xff bytes) plus foreign-prefix neighbours (0x04.., 0x06..) in LevelDB and the overlay; every written value is unique. Oracle: three-map model; every Get on cache and overlay, every iterator run to exhaustion on cache and overlay, and a full sweep after every commit/reset/flush/restart. Non-trivial = a non-empty cache commit happened AND some iterator merged a non-empty memory side with a non-empty backend side; distinct = distinct event-trace hash",
+		Rule: "a run = 1..300 tape-chosen operations on three real layers (CacheDB memdb over OverlayDB memdb over a real LevelDB, on SimDisk in about half of the runs): cache put/delete/put-empty/get/prefix-iterate, Commit, Reset, direct overlay put/delete, overlay Reset, overlay CommitTo + LevelDB batch commit (with or without clearing the overlay), fresh overlay+cache (next block), clean LevelDB restart, and on SimDisk process death at a tape-chosen disk call during a flush (now and then with a write set of more than a thousand records), after which LevelDB must hold what it held before or the whole write set; up to 32 keys sharing prefixes (empty key, 0x00/0xff bytes) plus foreign-prefix neighbours (0x04.., 0x06..) in LevelDB and the overlay; every written value is unique. Oracle: three-map model; every Get on cache and overlay, every iterator run to exhaustion on cache and overlay, and a full sweep after every commit/reset/flush/restart. Non-trivial = a non-empty cache commit happened AND some iterator merged a non-empty memory side with a non-empty backend side; distinct = distinct event-trace hash",
 		Real: []string{"smartcontract/storage CacheDB", "core/store/overlaydb (OverlayDB, MemDB, JoinIter)", "core/store/leveldbstore + goleveldb (SimDisk or in-memory storage)"},
 		Stub: []string{"a forwarding PersistStore between OverlayDB and LevelDBStore so LevelDB can be closed and reopened under a live overlay", "disk: in-memory goleveldb storage (SimDisk), clean restarts only"},
 		Assumptions: []string{
@@ -333,6 +333,102 @@ func runC04(c *simkit.Ctx) {
 				r.m.over = map[string][]byte{}
 				r.sweep("after-overlay-reset")
 			case 10:
+				if disk != nil && t.Prob(1, 4) {
+					// the process dies during the flush (between CommitTo and the end of BatchCommit):
+					// after the restart LevelDB holds what it held before, or the whole write set
+					if t.Prob(1, 8) {
+						// a large write set (more than a thousand records in one batch)
+						for k := 0; k < 1100+t.Choose(500); k++ {
+							raw := append([]byte{byte(scommon.ST_STORAGE), 0xfe, 0x42}, byte(k>>8), byte(k))
+							v := r.val()
+							r.ov.Put(raw, v)
+							r.m.over[string(raw)] = v
+						}
+						c.Probe("c04_large_write_set")
+					}
+					after := map[string][]byte{}
+					for k, v := range r.m.back {
+						after[k] = v
+					}
+					for k, v := range r.m.over {
+						if len(v) == 0 {
+							delete(after, k)
+						} else {
+							after[k] = v
+						}
+					}
+					world.Quiesce()
+					disk.ArmCrash(1+t.Choose(6), t.Choose(3)*100)
+					r.proxy.NewBatch()
+					r.ov.CommitTo()
+					ferr := r.proxy.BatchCommit()
+					if !disk.Crashed() {
+						disk.Disarm()
+						c.Must(ferr, "leveldb batch commit")
+						r.m.back = after
+						r.ov.Reset()
+						r.m.over = map[string][]byte{}
+						r.sweep("after-flush")
+						break
+					}
+					c.Fault("crash_in_flush")
+					c.Probe("c04_crash_in_flush")
+					c.Logf("CRASH during the flush at %s (err %v)", disk.CrashInfo, ferr)
+					func() {
+						defer func() { recover() }()
+						r.proxy.cur.Close()
+					}()
+					r.proxy.cur = nil
+					world.Quiesce()
+					disk.Restart()
+					st, err := leveldbstore.NewLevelDBStore(path)
+					if err != nil {
+						c.Fail("reopen-fails", "crash-in-flush", "reopen of leveldb after a crash during the flush fails: %v", err)
+					}
+					r.proxy.cur = st
+					got := map[string][]byte{}
+					it := st.NewIterator(nil)
+					for ok := it.First(); ok; ok = it.Next() {
+						got[string(it.Key())] = append([]byte(nil), it.Value()...)
+					}
+					it.Release()
+					same := func(a, b map[string][]byte) bool {
+						if len(a) != len(b) {
+							return false
+						}
+						for k, v := range a {
+							if w, ok := b[k]; !ok || !bytes.Equal(v, w) {
+								return false
+							}
+						}
+						return true
+					}
+					switch {
+					case same(got, after):
+						r.m.back = after
+						c.Probe("c04_crash_kept_flush")
+					case same(got, r.m.back):
+						c.Probe("c04_crash_lost_flush")
+					default:
+						nOld, nNew := 0, 0
+						for k, v := range got {
+							if w, ok := r.m.back[k]; ok && bytes.Equal(v, w) {
+								nOld++
+							}
+							if w, ok := after[k]; ok && bytes.Equal(v, w) {
+								nNew++
+							}
+						}
+						c.Fail("flush-not-atomic", "crash-in-flush", "after a crash during the flush (%s) LevelDB holds %d entries: neither what it held before (%d entries, %d agree) nor the whole write set applied (%d entries, %d agree)", disk.CrashInfo, len(got), len(r.m.back), nOld, len(after), nNew)
+					}
+					// the memory layers died with the process
+					r.ov = overlaydb.NewOverlayDB(r.proxy)
+					r.cache = storage.NewCacheDB(r.ov)
+					r.m.over = map[string][]byte{}
+					r.m.cache = map[string][]byte{}
+					r.sweep("after-crash-in-flush")
+					break
+				}
 				r.proxy.NewBatch()
 				r.ov.CommitTo()
 				c.Must(r.proxy.BatchCommit(), "leveldb batch commit")
